@@ -942,6 +942,84 @@ def r06_10(prog, rep, rid="R06.10"):
         rep.broken_("rule=%s expected the resumed write of fdflush(), found %d" % (rid, n))
 
 
+def r06_11(prog, rep, rid="R06.11"):
+    """The all-users dump remembers the users it has opened a file for in an array of nodes that are linked into a trie: the trie holds
+    the nodes' addresses.  When the array is grown with realloc() the nodes may move; whatever holds their addresses must be seeded
+    afresh before it is used again, or the next look-up walks freed memory — and a look-up that misses opens the user's file a
+    second time, truncating what the dump has written for him so far."""
+    from ..flow import must_pass
+    KEEPS_NOTHING = {"memcpy", "memmove", "memset", "memcmp", "qsort", "free", "realloc", "snprintf", "sizeof"}
+    n = 0
+    for f in prog.fns_in(DAEMON):
+        if not f.cfg:
+            continue
+        cfg = f.cfg
+        # arrays grown in place: A = realloc(A, ..) directly or through a temporary
+        tmp = {}
+        grown = {}
+        for b, i, x, line in list(cfg.all_elems()) * 2:         # twice: the temporary may be met behind its use
+            if not isinstance(x, dict):
+                continue
+            for l, kind, nn in writes(x):
+                rhs = nn.get("init") if kind == "decl" else (nn.get("r") if nn.get("k") == "bin" and nn["op"] == "=" else None)
+                r = strip_casts(cfg.resolve(rhs)) if rhs is not None else None
+                if not isinstance(r, dict):
+                    continue
+                if r.get("k") == "call" and r.get("fn") == "realloc":
+                    src = lv(strip_casts(cfg.resolve(r["a"][0])))
+                    if lv(l) == src:
+                        grown[src] = (b, i, nn.get("line", line))
+                    else:
+                        tmp[lv(l)] = src
+                elif r.get("k") == "ref" and r.get("n") in tmp and tmp[r["n"]] == lv(l):
+                    grown[lv(l)] = (b, i, nn.get("line", line))
+        for arr, (gb, gi, gline) in grown.items():
+            sites = []
+            for b, i, x, line in cfg.all_elems():
+                if not isinstance(x, dict):
+                    continue
+                for c in calls(x):
+                    if c.get("fn") in KEEPS_NOTHING or not c.get("fn"):
+                        continue
+                    for a in c.get("a", []):
+                        a_ = strip_casts(cfg.resolve(a))
+                        el = None
+                        if a_.get("k") == "bin" and a_["op"] == "+" and lv(strip_casts(a_["l"])) == arr:
+                            el = a_
+                        elif a_.get("k") == "un" and a_["op"] == "&" and strip_casts(a_["e"]).get("k") == "idx" and lv(strip_casts(a_["e"])["b"]) == arr:
+                            el = a_
+                        if el is not None:
+                            sites.append((b, i, c["fn"], c.get("line", line)))
+            if not sites:
+                continue
+            n += 1
+            key = "%s/element-addresses-of-%s-survive-its-growth" % (f.name, arr)
+            # a re-seeding hand-over R: it runs only behind a growth, and every other hand-over that the growth reaches lies behind it
+            reseed = None
+            for (rb, ri, rfn, rl) in sites:
+                if rb != gb and rb not in cfg.reach_from(gb):
+                    continue
+                if not must_pass(cfg, cfg.entry, rb, {gb}):
+                    continue
+                # the re-seeding is a loop over the elements: a path that runs it zero times (no element yet) still passes its header
+                via = {rb}
+                for h_, blks_ in cfg.natural_loops().items():
+                    if rb in blks_ and must_pass(cfg, cfg.entry, h_, {gb}):
+                        via.add(h_)
+                if all((sb, si) == (rb, ri) or fn2 != rfn or (sb != gb and sb not in cfg.reach_from(gb)) or must_pass(cfg, gb, sb, via)
+                       for (sb, si, fn2, sl) in sites):
+                    reseed = (rfn, rl)
+            bad = None if reseed else (sites[0][2], sites[0][3])
+            if bad:
+                rep.fail(rid, key, f.loc(gline), "%s is grown with realloc() while %s() has been handed addresses of its elements (line %s) and nothing "
+                         "hands them over again behind the growth: the holder points into freed memory when the array moves (more than 16 "
+                         "users in one dump), a look-up that misses re-opens the user's file with O_TRUNC" % (arr, bad[0], bad[1]))
+            else:
+                rep.ok(rid, key, f.loc(gline), "behind the growth the elements of %s are handed over again before the next use" % arr)
+    if n < 1:
+        rep.broken_("rule=%s expected the grown node array of the all-users dump, found none" % rid)
+
+
 def run(prog, rep, tier, snap):
     rep.rule("R06.1", "write-close-rename protocol in every function that renames into the spool", 12)
     rep.call(r06_1, prog, rep)
@@ -959,6 +1037,8 @@ def run(prog, rep, tier, snap):
     rep.call(r06_8, prog, rep)
     rep.rule("R06.10", "a write resumed after a short write continues with the rest, not with the full length again", 1)
     rep.call(r06_10, prog, rep)
+    rep.rule("R06.11", "addresses of elements of an array grown by realloc() are handed over again behind the growth", 1)
+    rep.call(r06_11, prog, rep)
     rep.rule("R06.9", "the all-users dump is triggered at the capacity at which the change list saturates", 1)
     rep.call(r06_9, prog, rep)
     from ..rules import valist
